@@ -8,7 +8,7 @@ PIN = {0, 1, 10, 54, 55, 56, 63, 64, 65, 100, 118, 119, 120, 127, 128, 129, 200,
 
 def run(c):
     # groestl-aesni selects its implementation by CPU detection (std) or at compile time (no-std: sse2 / ssse3 / aes modules)
-    builds = [("std-rel", 0), ("nostd-sse2", 0), ("nostd-aes", 0)] + ([("std-dbg", 0), ("nostd-ssse3", 0)] if c.thorough else [])
+    builds = [("std-rel", 0), ("nostd-sse2", 0), ("nostd-ssse3", 0), ("nostd-aes", 0)] + ([("std-dbg", 0)] if c.thorough else [])
     pin = PIN if not c.thorough else set(range(0, 256, 3)) | PIN
     digest_common.run_digests(c, "groestl", "TraceGroestl", None, builds, pin=(["Groestl224", "Groestl256", "Groestl384", "Groestl512"], pin))
     c.cov["rule"] = ("one-shot digests of Groestl224/256/384/512 for message lengths 0..2*block+17 (all in thorough; the <=8-bytes-left boundary that adds a padding block, block "
